@@ -2,7 +2,8 @@
 C06, C13 and the notification half of C14 (C14a): ClientState design model
 (exhaustive TLC), TLC behaviours replayed as operation sequences against the
 real TaskManager / PilotManager / Task / Pilot, exhaustive small-scope
-enumerations and seeded random operation sequences; every recorded trace is
+enumerations and seeded random operation sequences (pilot notifications carry
+pilot documents whose optional fields come absent, None and present); every recorded trace is
 validated by the ClientStateTrace monitor.  Only errors of the property under
 check (prefix == chk.pid) are reported; "N.*" entries are notes that tell which
 named deviation of the design model explains an observation.
@@ -170,8 +171,52 @@ def ops_from_behaviour(path, rng):
             ops.append(['pilot_final', last[1], rng.choice([PD, PF, PC]),
                         rng.choice(['list', 'single']), rng.random() < 0.5])
         elif last[0] == 'pnotify':
-            ops.append(['pnotify', [[e[0], e[1], e[2]] for e in last[1]]])
+            ops.append(['pnotify', [[e[0], e[1], e[2], random_doc(rng)] for e in last[1]]])
     return bound, ops
+
+
+# ------------------------------------------------------------------------------
+# contents of the pilot documents (pmgr -> pilot -> tmgr chain): every optional
+# field the real update chain reads comes absent, None and present
+#
+def doc_variants():
+    fields = R.PILOT_DOC_FIELDS
+    out = [{}]
+    for k in sorted(fields):
+        for v in fields[k]:
+            out.append({k: v})
+    out.append({k: None for k in fields})
+    out.append({k: fields[k][-1] for k in fields})
+    return out
+
+
+DOCS = doc_variants()
+
+
+def random_doc(rng):
+    if rng.random() < 0.4:
+        return {}
+    if rng.random() < 0.2:
+        return rng.choice(DOCS)
+    keys = rng.sample(sorted(R.PILOT_DOC_FIELDS), rng.randint(1, 3))
+    return {k: rng.choice(R.PILOT_DOC_FIELDS[k]) for k in keys}
+
+
+def enum_docs():
+    '''every document variant on a final notification (from NEW and from
+       ACTIVE, where the variant also rode on the non-final notification) with
+       bound, foreign and unbound tasks in flight; a second pilot ends later'''
+    init = {'t1': 'p1', 't2': 'p2'}
+    for k, doc in enumerate(DOCS):
+        for j, fin in enumerate((PF, PC, PD)):
+            for active in (False, True):
+                ops = [['notify', [['t1', 9], ['t2', 4]]], ['bind', 't3', 'p1']]
+                if active:
+                    ops.append(['pnotify', [['pilot', 'p1', NP - 1, doc]]])
+                ops.append(['pnotify', [['pilot', 'p1', fin, doc]]])
+                ops.append(['notify', [['t4', 5]]])
+                ops.append(['pnotify', [['pilot', 'p2', [PC, PD, PF][j], DOCS[(k + j) % len(DOCS)]]]])
+                yield (['t1', 't2', 't3', 't4'], ['p1', 'p2'], init, ops)
 
 
 # ------------------------------------------------------------------------------
@@ -252,10 +297,12 @@ def enum_c13(quick):
                 fin   = [PF, PC, PD][(n + k) % 3]
                 route = routes[(n + k) % 3]
                 if route == 'pmgr':
-                    death.append(['pnotify', [['pilot', pid, fin]]])
+                    death.append(['pnotify', [['pilot', pid, fin, DOCS[(n + k) % len(DOCS)]]]])
                 else:
                     death.append(['pilot_final', pid, fin, route, n % 2 == 0])
             yield (['t1', 't2', 't3'], ['p1', 'p2'], init, ops + death)
+    for case in enum_docs():
+        yield case
 
 
 def enum_c14(quick):
@@ -279,6 +326,8 @@ def enum_c14(quick):
                              [['pilot', 'p2', x], ['pilot', 'p1', s]],          # two pilots, one batch
                              [['pilot', 'p1', s], ['pilot', 'p2', x], ['pilot', 'px', x]]):
                     yield (['t1', 't2'], ['p1', 'p2'], init, head + [['pnotify', last]])
+    for case in enum_docs():
+        yield case
 
 
 # ------------------------------------------------------------------------------
@@ -333,7 +382,7 @@ def random_case(rng):
             for _ in range(rng.choice([1, 1, 1, 2, 2, 3])):
                 p = rng.choice(pilots + ['px'])
                 b.append([rng.choice(['pilot'] * 6 + ['task', 'none']), p,
-                          _pick_state(rng, pst.get(p, 0), NP)])
+                          _pick_state(rng, pst.get(p, 0), NP), random_doc(rng)])
             op = ['pnotify', b]
         ops.append(op)
         rig.apply(op)
@@ -400,9 +449,10 @@ def _nontrivial_keys(trace):
             if any(u not in tst or s != tst[u] + 1 for u, s in e['batch']) or len(e['batch']) > 1:
                 keys.add(('N', tuple(sorted(tst.items())), tuple(map(tuple, e['batch']))))
         elif e['ev'] == 'PNotify':
+            docs = tuple(e.get('docs', []))
             if any(ty != 'pilot' or p not in pst or s != pst[p] + 1 for ty, p, s in e['batch']) \
-                    or len(e['batch']) > 1:
-                keys.add(('P', tuple(sorted(pst.items())), tuple(map(tuple, e['batch']))))
+                    or len(e['batch']) > 1 or any(d != 'plain' for d in docs):
+                keys.add(('P', tuple(sorted(pst.items())), tuple(map(tuple, e['batch'])), docs))
             if e['calls']:
                 keys.add(('D', tuple(sorted(tst.items())), tuple(e['calls']),
                           tuple(sorted((u, e['tpost'][u]['pilot']) for u in tst))))
